@@ -10,10 +10,10 @@ import re
 EXACT_KINDS = {
     'CStartAt', 'CStartAfter', 'CEndAt', 'CEndBefore', 'CPrecedence', 'CStartSynced', 'CEndSynced', 'CDontOverlap',
     'CUGroup', 'COGroup', 'CForceSched', 'CDependency', 'CForceN',
-    'CUnavailable', 'CWorkLoad', 'CSameWorkers', 'CDistinctWorkers',
+    'CUnavailable', 'CWorkLoad', 'CSameWorkers', 'CDistinctWorkers', 'CPeriodicUnavailable',
 }
 PLAIN_OPS = {'ONewProblem', 'ONewTask', 'ONewWorker', 'ONewCumulative', 'ONewSelect', 'OAddRequired', 'ONewConstraint'}
-RESOURCE_KINDS = {'CUnavailable', 'CWorkLoad'}
+RESOURCE_KINDS = {'CUnavailable', 'CWorkLoad', 'CPeriodicUnavailable'}
 
 
 def head(x):
@@ -43,6 +43,11 @@ def probe_ok(prog):
                     lo, hi = iv[1][1], iv[1][2]
                     if _z(lo) > _z(hi):
                         return False
+            if k == 'CPeriodicUnavailable':
+                # specified exactly for windows 0 <= lo < hi <= period only
+                period = _z(op[3][3])
+                if period <= 0 or any(not (0 <= _z(iv[1]) < _z(iv[2]) <= period) for iv in op[3][2]):
+                    return False
             if k in RESOURCE_KINDS:
                 seen_rc = True
         if h == 'OAddRequired':
